@@ -60,6 +60,15 @@ CLAIMED = {
    technique="CrossHair symbolic execution (z3) of the real merge() methods under a shimmed numpy/numba environment; every condition must be 'Confirmed over all paths'",
    text="All five classes: every constructor parameter of both operands symbolic over its documented range (width to 10^6, depth to 64, max_count < 2^64, num_reserved, p, seed < 2^64, heavy-hitter width to 10^5 with enumerated depth/max_key_len and symbolic or default phi), plus all ordered counter-type pairs: merge() raises TypeError exactly when a listed parameter differs; a refused merge reaches no kernel and leaves both operands' attributes and arrays unchanged; an accepted merge calls exactly the right kernel once with self's and other's arrays. Counterexamples are replayed on real sketches (with amplification to adjacent huge max_count values, which is what it takes for two log bases to coincide).",
    note="Kernels are call recorders here (their behaviour is C01/C02/C03/C09); the shims are an environment model validated by the replays; operands of unrelated types are outside."),
+
+ "C10": dict(engine=W, category="model_checking", design="6 C10",
+   technique="CrossHair symbolic execution (z3) of the real save()/load() methods against an in-memory dtype-preserving npz model; every condition must be 'Confirmed over all paths'",
+   text="For all five classes at enumerated small shapes with symbolic non-shape parameters (seed and max_count to 2^64-1, num_reserved, phi default or any float in (0,1)), symbolic table cells and bookkeeping counters: loading a saved sketch through the class loader and through the module-level load yields the same class, parameters (incl. base, phi, seed), tables, n_added, n_records, and merges with the original; class loaders reject other counter types; HeavyHitters.load rebuilds its cache exactly once after the tables are copied. int->float64 conversions in the npz model round like IEEE above 2^53 (a seed saved as float is caught). This check found defect F3 (width-1 HeavyHitters could not be loaded; repaired in /repo b1c944d).",
+   note="'Evolves identically' follows from equal state (kernels are functions of state and draws); the on-disk byte format, truncated files (C20) and real shared-memory loading are outside; the npz model is validated by replaying every counterexample through real files."),
+ "C13": dict(engine=W + " + " + K, category="model_checking", design="6 C13",
+   technique="CrossHair symbolic execution (z3) of the real query/generate_candidate_set/__getitem__ per enumerated alias pattern; symbolic execution of Numba typed IR + z3 for the 'mutators grow n_added or change nothing' lemma",
+   text="Per stored-key alias pattern (distinct, same key in two rows, NUL-padded alias, empty key, all-NUL key, empty cell) with both counts and the threshold over all of uint32 and k in 1..3: at most k pairs, distinct keys, non-increasing counts, each count == hh[key] >= threshold, counts are a prefix of the unbounded answer, every stored key with hh[key] >= max(threshold,1) present. Freshness: lemma A (second query after any threshold pair, explicit or default, with or without growth, equals a cache-free sketch's answer), lemma B (kernels: an add/merge either strictly increases n_added or leaves the tables alone; counts <= n_added is invariant), lemma C (load rebuilds the cache, in C10).",
+   note="Width 1 / depth 2 / max_key_len 2 only (scan loops uniform); Counter.most_common trusted; thresholds >= 2^32 and n_added wrap-around outside."),
 }
 NA = {}
 ALL = sorted(TITLES)
